@@ -98,6 +98,19 @@ func (h *hist) checkPanic(what string, err error) {
 	}
 }
 
+// hasLongConst: the query compares a STRING field with a constant longer than the column
+func (h *hist) hasLongConst(q *Query) bool {
+	for _, g := range q.Groups {
+		for _, cm := range g {
+			f := h.c.field(cm.Field)
+			if sv, isS := cm.Val.(string); f != nil && f.Type == tStr && isS && len(sv) > 512 {
+				return true
+			}
+		}
+	}
+	return false
+}
+
 // longConstOnIndexed: a string constant longer than the 512-byte column on an indexed STRING field
 // (the range bound cannot be encoded as a key; the same query works when no index is used)
 func (h *hist) longConstOnIndexed(q *Query) bool {
@@ -876,7 +889,11 @@ func (h *hist) doQuery() {
 	}
 	ids2, ok2 := h.doSearch(q, off, true)
 	if ok1 != ok2 {
-		h.finding("", fmt.Sprintf("query %s fails with the index on (%s) %s and succeeds without", queryString(q), strings.Join(cols, ","), map[bool]string{true: "present", false: "absent"}[toggledOn != ok2]))
+		lbl := ""
+		if h.hasLongConst(q) {
+			lbl = lblLongC
+		}
+		h.finding(lbl, fmt.Sprintf("query %s fails with the index on (%s) %s and succeeds without", queryString(q), strings.Join(cols, ","), map[bool]string{true: "present", false: "absent"}[toggledOn != ok2]))
 	} else if ok1 && !samePageUpToTies(h.c, q, off, ids1, ids2) {
 		lbl := ""
 		if h.negZeroFeature(q) {
